@@ -24,7 +24,7 @@ from .cdef import Contract, LoopSpec  # noqa: E402,F401
 
 SPEC_PRIM_NAMES = {'be', 'le', 'sl', 'cat', 'low', 'shr', 'pow2', 'tb', 'tl', 'bat', 'rpow', 'rpow2', 'bfind',
                    'band', 'bor', 'at', 'toreal', 'is_int_valued', 'decode', 'decodable', 'has_key', 'pv',
-                   'kind_of', 'raw_of', 'val_of', 'keys_of', 'append', 'cls_is', 'warned', 'i2r', 'src_T', 'src_R', 'coerce_like', 'coercible', 'comparable', 'cap', 'mset', 'mdel', 'events', 'events0', 'lcat', 'kind_is'}
+                   'kind_of', 'raw_of', 'val_of', 'keys_of', 'append', 'cls_is', 'warned', 'i2r', 'src_T', 'src_R', 'coerce_like', 'coercible', 'comparable', 'cap', 'mset', 'mdel', 'events', 'events0', 'lcat', 'kind_is', 'ieee', 'feq'}
 
 
 class Registry:
@@ -569,13 +569,22 @@ def apply_contract(I, con, args, kwargs, node, clo=None, constructing=None, resu
     caller = I.fname
     callee = con.target
     found = I.world.find_function(callee)
-    if found is None and clo is None:
-        raise StaleContract(f"contract target {callee} not found in source")
-    fn_node = clo.node if clo is not None else found[2]
-    def_frame = clo.frame if clo is not None else I.registry.global_frame(I, found[0])
-    if constructing is not None:
-        args = [SV('cls', constructing.qual)] + list(args[1:])
-    bound = bind_call_args(I, fn_node, args, kwargs, def_frame, node)
+    if found is None and clo is None and func_sv is not None and con.ghost.get('function_value'):
+        # an ASSUMED contract on a function VALUE stored in a field (no definition of that name): positional binding to
+        # the contract's own parameters
+        pnames = [p_ for p_ in con.params if p_ not in con.captures]
+        if kwargs or len(args) != len(pnames):
+            raise OutOfSubset(f"call of the function value {callee} with other than its {len(pnames)} positional argument(s)")
+        bound = dict(zip(pnames, args))
+        fn_node = None
+    else:
+        if found is None and clo is None:
+            raise StaleContract(f"contract target {callee} not found in source")
+        fn_node = clo.node if clo is not None else found[2]
+        def_frame = clo.frame if clo is not None else I.registry.global_frame(I, found[0])
+        if constructing is not None:
+            args = [SV('cls', constructing.qual)] + list(args[1:])
+        bound = bind_call_args(I, fn_node, args, kwargs, def_frame, node)
     # choose the variant by actual kinds
     chosen = None
     for vname in con.variant_names():
@@ -641,7 +650,8 @@ def apply_contract(I, con, args, kwargs, node, clo=None, constructing=None, resu
         havoc_location(I, loc, sf)
     saved_old, saved_map = I.in_old, I.old_map
     I.old_map = snap
-    if con.yields or (con.final and any(isinstance(n_, (ast.Yield, ast.YieldFrom)) for n_ in ast.walk(fn_node))):
+    if con.yields or (con.final and fn_node is not None and
+                      any(isinstance(n_, (ast.Yield, ast.YieldFrom)) for n_ in ast.walk(fn_node))):
         # a generator under contract: the caller sees the list of everything it yields, constrained by the
         # generator's exhaustion clauses (`final`); the source is consumed
         saved_gd = I.ghost_defs
